@@ -241,6 +241,9 @@ func (fe *FnEnc) run() {
 		if d.declared["Bytes"] {
 			fe.declared["Bytes"] = true
 		}
+		for k, v := range d.compT {
+			fe.compT[k] = v
+		}
 	}
 	for _, b := range fn.Blocks {
 		for _, ins := range b.Instrs {
@@ -402,8 +405,7 @@ func (fe *FnEnc) loopHead(st *State, l *Loop) {
 	if l.spec != nil {
 		for i := range l.spec.Invs {
 			cl := &l.spec.Invs[i]
-			g := fe.trBool(cl.E, env)
-			fe.addObl(st, fmt.Sprintf("loop%d.inv", l.ord), cl.Label+".init", fe.propsFor(cl), g, l.header.Instrs[0].Pos())
+			fe.addOblExpr(st, fmt.Sprintf("loop%d.inv", l.ord), cl.Label+".init", fe.propsFor(cl), cl.E, env, l.header.Instrs[0].Pos())
 		}
 	}
 	// havoc what the body may write
@@ -423,8 +425,16 @@ func (fe *FnEnc) loopHead(st *State, l *Loop) {
 			st.ghost[g] = fe.fresh("hg", old.Sort)
 		}
 	}
+	if s, ok := l.writes.comps["alloc"]; ok {
+		fe.havocComp(st, "alloc", s)
+	}
 	for _, k := range sortedKeys(l.writes.comps) {
-		fe.havocComp(st, k, l.writes.comps[k])
+		if k != "alloc" {
+			if t, ok := l.writes.types[k]; ok {
+				fe.compT[k] = t
+			}
+			fe.havocComp(st, k, l.writes.comps[k])
+		}
 	}
 	env = fe.loopEnv(st, l)
 	if ri != nil {
@@ -477,8 +487,7 @@ func (fe *FnEnc) loopLatch(st *State, from *ssa.BasicBlock, l *Loop) {
 	env := fe.loopEnv(ls, l)
 	for i := range l.spec.Invs {
 		cl := &l.spec.Invs[i]
-		g := fe.trBool(cl.E, env)
-		fe.addObl(ls, fmt.Sprintf("loop%d.inv", l.ord), cl.Label+".preserve", fe.propsFor(cl), g, from.Instrs[len(from.Instrs)-1].Pos())
+		fe.addOblExpr(ls, fmt.Sprintf("loop%d.inv", l.ord), cl.Label+".preserve", fe.propsFor(cl), cl.E, env, from.Instrs[len(from.Instrs)-1].Pos())
 	}
 	if l.spec.Decr != nil && l.variant != nil {
 		now := fe.trVal(l.spec.Decr, env).T
@@ -592,6 +601,7 @@ func (fe *FnEnc) execInstr(st *State, ins ssa.Instruction) {
 		r := fe.newRef(st)
 		es := fe.sorts.sortOf(el)
 		cn, cs := compElems(es), arrSort(sInt, arrSort(sInt, es))
+		fe.compT[cn] = el
 		h := fe.getComp(st, cn, cs)
 		z := fe.sorts.zero(el)
 		fe.setComp(st, cn, cs, tStore(h, r, Term{"((as const " + arrSort(sInt, es) + ") " + z.S + ")", arrSort(sInt, es)}))
@@ -752,7 +762,8 @@ func (fe *FnEnc) execIndexAddr(st *State, x *ssa.IndexAddr) {
 	case *types.Slice:
 		s := fe.getT(st, x.X)
 		fe.safety(st, "bounds", x.Pos(), tAnd(tCmp("<=", tInt(0), i), tCmp("<", i, slLen(s))))
-		fe.setReg(x, RV{A: &Addr{kind: aElem, base: slArr(s), pos: tArith("+", slOff(s), i), T: t.Elem()}})
+		ii, ss := i, s
+		fe.setReg(x, RV{A: &Addr{kind: aElem, base: slArr(s), pos: tArith("+", slOff(s), i), T: t.Elem(), sl: &ss, idx: &ii}})
 	case *types.Pointer: // pointer to array
 		arr := t.Elem().Underlying().(*types.Array)
 		fe.safety(st, "bounds", x.Pos(), tAnd(tCmp("<=", tInt(0), i), tCmp("<", i, tInt(arr.Len()))))
@@ -1107,6 +1118,7 @@ func (fe *FnEnc) execTypeAssert(st *State, x *ssa.TypeAssert) {
 
 func (fe *FnEnc) mapComps(st *State, mt *types.Map, old bool) (dom, val, card Term, ks, vs string) {
 	ks, vs = fe.sorts.sortOf(mt.Key()), fe.sorts.sortOf(mt.Elem())
+	fe.compT[compMapVal(ks, vs)] = mt.Elem()
 	get := func(n, s string) Term {
 		if old {
 			return fe.oldComp(n, s)
@@ -1251,8 +1263,7 @@ func (fe *FnEnc) execReturn(st *State, x *ssa.Return) {
 		env := fe.postEnv(st, rets)
 		for i := range fe.contract.Ensures {
 			cl := &fe.contract.Ensures[i]
-			g := fe.trBool(cl.E, env)
-			fe.addObl(st, "post", cl.Label, fe.propsFor(cl), g, x.Pos())
+			fe.addOblExpr(st, "post", cl.Label, fe.propsFor(cl), cl.E, env, x.Pos())
 		}
 	}
 	// held-lock discipline: nothing taken by this call is still held (sequential)
